@@ -1484,8 +1484,31 @@ MUTANTS = [
     {"name": "example-device-from-substring-sparse", "file": EXAMPLE, "old": '"gpu" if "cusparse" in case', "new": '"gpu" if "sparse" in case', "rules": ["R5"]},
     {"name": "example-case-table-unknown-method", "edits": [{"file": EXAMPLE, "old": '    def __init__(self):\n        super(ExampleCommand, self).__init__()\n', "new": '    _ALL = ("dense", "sparse", "cusparse", "rosenbrock4")\n    _CASES = (\n        ("empty", _ALL),\n        ("minimal", _ALL),\n        ("primordial", _ALL),\n        ("deuterium", _ALL),\n        ("cloud", ("dense", "sparse", "rosenbrock4")),\n        ("ism", ("dense", "sparse", "cusparse", "bdf")),\n    )\n\n    def __init__(self):\n        super(ExampleCommand, self).__init__()\n'}, {"file": EXAMPLE, "old": '        networklist = [\n            "empty/dense",\n            "empty/sparse",\n            "empty/cusparse",\n            "empty/rosenbrock4",\n            "minimal/dense",\n            "minimal/sparse",\n            "minimal/cusparse",\n            "minimal/rosenbrock4",\n            "primordial/dense",\n            "primordial/sparse",\n            "primordial/cusparse",\n            "primordial/rosenbrock4",\n            "deuterium/dense",\n            "deuterium/sparse",\n            "deuterium/cusparse",\n            "deuterium/rosenbrock4",\n            "cloud/dense",\n            "cloud/sparse",\n            "cloud/rosenbrock4",\n            "ism/dense",\n            "ism/sparse",\n            "ism/cusparse",\n        ]\n', "new": '        networklist = [\n            "/".join((ex_, how_))\n            for ex_, hows_ in self._CASES\n            for how_ in hows_\n        ]\n'}], "rules": ["R5"]},
     {"name": "writer-update-forgets-method", "file": CONF, "old": '        odesolver = content["ODEsolver"]\n        odesolver["solver"] = self._solver\n        odesolver["device"] = self._device\n        odesolver["method"] = self._method\n', "new": '        content["ODEsolver"].update({"solver": self._solver, "device": self._device})\n', "rules": ["R1"]},
+    # hardening wave 3
+    {"name": "input-stage-filters-required-species", "file": CONF, "old": "        self._extraspecies = required_species.copy() if required_species else []\n", "new": "        self._extraspecies = [s for s in (required_species or []) if s not in self._allowedspecies]\n", "rules": ["R13"]},
+    {"name": "input-stage-dedups-formats", "file": CONF, "old": "        self._formats = formats.copy() if formats else []\n", "new": "        self._formats = list(dict.fromkeys(formats)) if formats else []\n", "rules": ["R13"]},
+    {"name": "ode-modifier-dependencies-deduplicated", "file": INIT, "old": '                rdep = rdep.replace("[", "").replace("]", "").strip().split()\n', "new": '                rdep = list(dict.fromkeys(rdep.replace("[", "").replace("]", "").strip().split()))\n', "rules": ["R7"]},
+    {"name": "ode-modifier-parser-helper-dedups", "edits": [
+        {"file": INIT, "old": '                rdep = rdep.replace("[", "").replace("]", "").strip().split()\n', "new": '                rdep = self._names(rdep)\n'},
+        {"file": INIT, "old": "    def option(self, key=None):\n", "new": "    @staticmethod\n    def _names(text):\n        return sorted(set(text.replace(\"[\", \"\").replace(\"]\", \"\").split()))\n\n    def option(self, key=None):\n"}], "rules": ["R7"]},
+    {"name": "rate-modifier-helper-splits-at-equals", "edits": [
+        {"file": INIT, "old": '        rate_modifier = [rm.split(":", 1) for rm in rate_modifier]\n', "new": '        rate_modifier = [self._pair(rm) for rm in rate_modifier]\n'},
+        {"file": INIT, "old": "    def option(self, key=None):\n", "new": "    @staticmethod\n    def _pair(text):\n        return text.split(\"=\", 1)\n\n    def option(self, key=None):\n"}], "rules": ["R4"]},
+    {"name": "render-network-kwargs-table-swapped", "file": RENDER, "old": "        net = Network(\n            filelist=files,\n            fileformats=formats,\n            elements=element,\n            pseudo_elements=pseudo_element,\n            allowed_species=allowed_species,\n            required_species=extra_species,\n            species_kwargs=species_kwargs,\n            grain_model=grain_model,\n            heating=heating,\n            cooling=cooling,\n            shielding=shielding,\n            rate_modifier=rate_modifier,\n            ode_modifier=ode_modifier,\n        )\n",
+     "new": "        opts = {\"filelist\": files, \"fileformats\": formats, \"elements\": element, \"pseudo_elements\": pseudo_element, \"allowed_species\": extra_species, \"required_species\": allowed_species, \"species_kwargs\": species_kwargs, \"grain_model\": grain_model, \"heating\": heating, \"cooling\": cooling, \"shielding\": shielding, \"rate_modifier\": rate_modifier, \"ode_modifier\": ode_modifier}\n        net = Network(**opts)\n", "rules": ["R8", "R12"]},
 ]
 BENIGN = [
+    # hardening wave 3
+    {"name": "input-stage-list-or-empty", "file": CONF, "old": "        self._extraspecies = required_species.copy() if required_species else []\n", "new": "        self._extraspecies = list(required_species or [])\n"},
+    {"name": "render-network-kwargs-table", "file": RENDER, "old": "        net = Network(\n            filelist=files,\n            fileformats=formats,\n            elements=element,\n            pseudo_elements=pseudo_element,\n            allowed_species=allowed_species,\n            required_species=extra_species,\n            species_kwargs=species_kwargs,\n            grain_model=grain_model,\n            heating=heating,\n            cooling=cooling,\n            shielding=shielding,\n            rate_modifier=rate_modifier,\n            ode_modifier=ode_modifier,\n        )\n",
+     "new": "        opts = {\"filelist\": files, \"fileformats\": formats, \"elements\": element, \"pseudo_elements\": pseudo_element, \"allowed_species\": allowed_species, \"required_species\": extra_species, \"species_kwargs\": species_kwargs, \"grain_model\": grain_model, \"heating\": heating, \"cooling\": cooling, \"shielding\": shielding, \"rate_modifier\": rate_modifier, \"ode_modifier\": ode_modifier}\n        net = Network(**opts)\n"},
+    {"name": "rate-modifier-pair-helper", "edits": [
+        {"file": INIT, "old": '        rate_modifier = [rm.split(":", 1) for rm in rate_modifier]\n', "new": '        rate_modifier = [self._pair(rm) for rm in rate_modifier]\n'},
+        {"file": INIT, "old": "    def option(self, key=None):\n", "new": "    @staticmethod\n    def _pair(text):\n        return text.split(\":\", 1)\n\n    def option(self, key=None):\n"}]},
+    {"name": "example-pairs-through-starmap", "edits": [
+        {"file": EXAMPLE, "old": "import shutil\n", "new": "import shutil\nfrom itertools import starmap\n"},
+        {"file": EXAMPLE, "old": 'bindingstr = ",".join(f"{s}={sv}" for s, sv in binding.items())', "new": 'bindingstr = ",".join(starmap("{}={}".format, binding.items()))'}]},
+    {"name": "summary-from-literal-table", "file": CONF, "old": '        summary["list_of_elements"] = self._network_elements\n        summary["list_of_species"] = self._network_species\n', "new": '        for grp, names in {"elements": self._network_elements, "species": self._network_species}.items():\n            summary[f"list_of_{grp}"] = names\n'},
     # hardening round 4
     {"name": "writer-fills-through-helper", "edits": [
         {"file": CONF, "old": "    @property\n    def content(self) -> str:\n", "new": "    def _fill_solver(self, table) -> None:\n        table[\"solver\"] = self._solver\n        table[\"device\"] = self._device\n        table[\"method\"] = self._method\n\n    @property\n    def content(self) -> str:\n"},
